@@ -34,8 +34,25 @@ def gen(ctx):
     for i in range(n):
         cfg = updenc.gen_cfg(rng)
         content, exp = updenc.gen_content(rng, cfg, size=rng.choice(['small', 'normal', 'normal']))
-        kind = rng.choice(['valid', 'valid', 'unknown', 'unknown', 'malformed', 'malformed', 'dup', 'badnlri'])
+        kind = rng.choice(['valid', 'valid', 'unknown', 'unknown', 'malformed', 'malformed', 'dup', 'badnlri', 'boundary'])
         attrs = list(content['attrs'])
+        if kind == 'boundary':
+            # a recognised attribute whose value is 252..260 octets long: the one-octet / two-octet length form changes at 255|256
+            code = rng.choice([8, 8, 16, 10, 2, 32])
+            sz = 4 if cfg['four'] else 2
+            if code == 2:
+                tot = rng.choice([256, 256, 254, 258, 252, 260]) - 4
+                cnt = tot // sz
+                a = 1 + rng.below(min(cnt - 1, 255))
+                b = cnt - a
+                if b > 255:
+                    a, b = cnt - 255, 255
+                v = b''.join(bytes([2, k]) + b''.join((64500 + rng.below(1000)).to_bytes(sz, 'big') for _ in range(k)) for k in (a, b))
+            else:
+                unit = {8: 4, 16: 8, 10: 4, 32: 12}[code]
+                v = bytes(rng.below(256) for _ in range(unit * (256 // unit + rng.choice([0, 0, 0, -1, 1]))))
+            attrs = [x for x in attrs if x[1] != code]
+            attrs.insert(rng.below(len(attrs) + 1), (updenc.CANON[code], code, v, len(v) > 255))
         if kind == 'unknown':
             for _ in range(1 + rng.below(3)):
                 code = rng.choice([11, 12, 13, 19, 22, 33, 40, 200, 254])
